@@ -321,6 +321,7 @@ def oracle_cancel(P):
             hits.append({"sig": {"oracle": "net_cancel", "what": "dispatcher_still_running_after_cancel"},
                          "text": f"after `{case[ci]}` socket {victim} still reports a live dispatcher: {impl[ci + 1][:160]}"})
         mine = {n for n, c in tr.calls.items() if c["sock"] == victim}
+        yielded = set()
         for i in range(end, len(case)):
             op, out = case[i], impl[i]
             t = op.split()
@@ -331,6 +332,11 @@ def oracle_cancel(P):
                         hits.append({"sig": {"oracle": "net_cancel", "what": "datagram_after_cancel"},
                                      "text": f"socket {victim} was cancelled (and the wire drained) but later emitted {ent} (`{op}`)"})
                         return hits[:2]
+            if t[1] == "write" and t[2] in mine and out == "pending" and t[2] not in yielded:
+                # (poll_write returns Pending once every 8 KiB as a cooperative yield - it wakes itself at once -
+                # before it looks at anything else: the first Pending of a writer is not a hang)
+                yielded.add(t[2])
+                continue
             if t[1] in ("read", "write", "flush") and t[2] in mine and out == "pending":
                 hits.append({"sig": {"oracle": "net_cancel", "what": "call_hangs_after_cancel"},
                              "text": f"`{op}` on a stream of the cancelled socket {victim} is still Pending"})
